@@ -201,6 +201,11 @@ def refine_lookups(t: Any, fact: Term) -> Any:
 
 def mk_sub(base: Term, idx: Term) -> Term:
     """subscript; a constant position of a loop element is the same thing as unpacking the element in the loop header"""
+    if is_int_const(idx) and base[0] in ("tuple", "list") and -len(base[1]) <= idx[1] < len(base[1]):
+        return base[1][idx[1]]          # a position of a display
+    if is_int_const(idx) and base[0] == "ife" and len(base) == 4 and all(b_[0] in ("tuple", "list") and -len(b_[1]) <= idx[1] < len(b_[1]) for b_ in base[2:4]):
+        a_, b_ = base[2][1][idx[1]], base[3][1][idx[1]]
+        return a_ if a_ == b_ else ("ife", base[1], a_, b_)
     if base[0] == "e" and len(base) == 3 and is_int_const(idx) and idx[1] >= 0:
         if base[2] == "elem":
             return ("e", base[1], idx[1])
@@ -483,6 +488,13 @@ class Typer:
                                     vals = list(v)
                             if vals:
                                 names = [v for v in vals if isinstance(v, str)]
+                        elif c.prov == "branch":
+                            # the same membership test written out (or normalised) as a chain of equalities
+                            ds = list(ct[1]) if ct[0] == "or" else [ct]
+                            if ds and all(d[0] == "cmp" and d[1] == "==" and attrv in (d[2], d[3]) for d in ds):
+                                vals2 = [(d[3] if d[2] == attrv else d[2]) for d in ds]
+                                if all(v[0] == "c" and isinstance(v[1], str) for v in vals2):
+                                    names = [v[1] for v in vals2]
                     for n in names:
                         out[n] = tuple(reversed(path))
             except Exception:
@@ -915,7 +927,7 @@ class Norm:
                        for tg in (st.targets if isinstance(st, ast.Assign) else [st.target]) if isinstance(tg, ast.Name) and tg.id == name)
         if n_assign != 1:
             return None
-        for sub in ast.walk(node):
+        for sub in (ast.walk(node) if not isinstance(node, ast.Lambda) else []):       # (NAME = lambda ..: a function under another spelling)
             if isinstance(sub, ast.Call):
                 fn = dotted_name(sub.func) or ""
                 if fn.split(".")[-1] not in self._PURE_CALLS:
@@ -1130,6 +1142,7 @@ class Norm:
         return self.mk_ife(c, a, b)
 
     def mk_ife(self, c: Term, a: Term, b: Term) -> Term:
+        a, b = _decided(a, c, True), _decided(b, c, False)      # a nested test of the same condition is already decided
         if a == b:
             return a
         if c == C(True):
@@ -1330,6 +1343,15 @@ class Norm:
                 return mk_cmpz(name, lin_add(a, b, -1))
         if is_const(a) and is_const(b) and name in ("==", "!="):
             return C((a[1] == b[1]) if name == "==" else (a[1] != b[1]))
+        if is_const(a) and is_const(b) and name in ("is", "isnot") and (a[1] is None or b[1] is None or isinstance(a[1], bool) or isinstance(b[1], bool)):
+            same = (a[1] is b[1])
+            return C(same if name == "is" else not same)
+        if name in ("==", "!=") and C(None) in (a, b) and a != b:
+            name = "is" if name == "==" else "isnot"        # nothing here defines __eq__ against None
+        if name in ("in", "notin") and b[0] in ("tuple", "list", "set") and 1 <= len(b[1]) <= 8:
+            # membership in a display is a chain of equalities
+            alts = [self.mk_cmp_s("==", a, x, scope) for x in b[1]]
+            return mk_or(alts) if name == "in" else mk_and([mk_not(x) for x in alts])
         if name in ("is", "isnot") and C(None) in (a, b):
             # `m.get(k) is None` is `k not in m` (mappings here hold no None values)
             x = a if b == C(None) else b
@@ -1477,7 +1499,8 @@ class Norm:
             kwargs = spliced
         while f[0] == "call" and f[1] in (("g", "ext:functools.partial"), ("g", "ext:partial")) and f[2] and not f[3]:
             f, args = f[2][0], list(f[2][1:]) + args        # calling a partial application
-        if f == ("g", "builtin:list") and len(args) == 1 and not kwargs and ((args[0][0] == "new" and args[0][1] == "list") or args[0][0] == "list"):
+        if f == ("g", "builtin:list") and len(args) == 1 and not kwargs and ((args[0][0] == "new" and args[0][1] == "list") or args[0][0] == "list"
+                                                                            or (args[0][0] == "comp" and args[0][1] == "list")):
             return args[0]          # a copy of a list that was just built is, as a value, that list
         t = self.mk_call(f, args, kwargs, scope)
         if self.on_call is not None:
@@ -1528,6 +1551,11 @@ class Norm:
                     if isinstance(fmt, (bytes, str)):
                         out = ("call", ("g", "ext:struct.Struct"), (C(fmt),), ())
                     break
+                if isinstance(node, ast.Call) and isinstance(node.func, ast.Name) and node.func.id == "staticmethod" and len(node.args) == 1 \
+                        and isinstance(node.args[0], ast.Lambda):
+                    # NAME = staticmethod(lambda ..): a plain function kept on the class
+                    out = self.norm(node.args[0], Scope(ci.module, None))
+                    break
                 try:
                     v = self.repo.fold(node, ci.module, None, {})
                 except Exception:
@@ -1570,6 +1598,10 @@ class Norm:
         # calling a functools.partial application calls the function with the bound arguments first
         if f[0] == "call" and f[1] in (("g", "ext:functools.partial"), ("g", "ext:partial")) and f[2] and not f[3]:
             return self.mk_call(f[2][0], list(f[2][1:]) + list(args), kwargs, scope)
+        # b"".join((x, y, z)) / "".join([..]) of a display is the concatenation
+        if f[0] == "a" and f[2] == "join" and f[1] in (C(b""), C("")) and len(args) == 1 and not kwargs and args[0][0] in ("tuple", "list") and args[0][1]:
+            parts = args[0][1]
+            return parts[0] if len(parts) == 1 else ("cat", tuple(y for x in parts for y in (x[1] if x[0] == "cat" else (x,))))
         # keyword -> positional for known repo signatures
         sig = self.signature_of(f, scope)
         if sig is not None and kwargs and not any(k == "**" for k, _ in kwargs):
@@ -1644,6 +1676,19 @@ def untag(t: Any) -> Any:
     return t
 
 
+def _decided(t: Any, c: Term, holds: bool) -> Any:
+    if not isinstance(t, tuple) or not t:
+        return t
+    if t[0] == "ife" and len(t) == 4:
+        if t[1] == c:
+            return _decided(t[2] if holds else t[3], c, holds)
+        if t[1] == mk_not(c):
+            return _decided(t[3] if holds else t[2], c, holds)
+    if t[0] in ("lam", "comp"):
+        return t
+    return tuple(_decided(x, c, holds) for x in t)
+
+
 def fuse_comp(t: Term) -> Term:
     """[f(x) for x in [g(o) for o in O if d(o)] if c(x)]  ==  [f(g(o)) for o in O if d(o) and c(g(o))]"""
     if t[0] != "comp":
@@ -1662,6 +1707,23 @@ def fuse_comp(t: Term) -> Term:
                 rest = [(substitute(d2, m), tuple(substitute(c2, m) for c2 in cs2)) for d2, cs2 in gens[i + 1:]]
                 gens = gens[:i] + inner + rest
                 elt = substitute(elt, m)
+                changed = True
+                break
+    # `for it in (A, B) for m in it` walks A then B: one generator over the concatenation
+    changed = True
+    while changed:
+        changed = False
+        for i in range(len(gens) - 1):
+            (d1, c1), (d2, c2) = gens[i], gens[i + 1]
+            if d1[0] in ("tuple", "list") and len(d1[1]) >= 1 and not c1 and d2 == ("e", d1, "elem"):
+                parts = tuple(("list", p_[1]) if p_[0] == "tuple" else p_ for p_ in d1[1])
+                cat: Term = parts[0] if len(parts) == 1 else ("cat", parts)
+                m2 = {("e", d2, "elem"): ("e", cat, "elem")}
+                others = gens[:i] + gens[i + 2:]
+                if any(mentions(x, d2) for dd, cs in others for x in (dd,) + tuple(cs)):
+                    continue
+                gens = gens[:i] + [(cat, tuple(substitute(c, m2) for c in c2))] + [(substitute(dd, m2), tuple(substitute(c, m2) for c in cs)) for dd, cs in gens[i + 2:]]
+                elt = substitute(elt, m2)
                 changed = True
                 break
     return ("comp", kind, elt, tuple(gens))
